@@ -437,7 +437,7 @@ func (s *scn) applySvcCycle(st CStep) {
 func (gm *govModel) checkNodeBindings(h uint64, curSt map[string]string) {
 	s := gm.s
 	if gm.bindingBy == nil {
-		gm.bindingBy = map[string]string{}
+		gm.bindingBy, gm.bindingLast = map[string]string{}, map[string]string{}
 	}
 	// which open proposal binds which node
 	open := map[string]*proposalView{}
@@ -466,9 +466,18 @@ func (gm *govModel) checkNodeBindings(h uint64, curSt map[string]string) {
 			delete(gm.bindingBy, key) // concluded or suspended: the proposal no longer holds the node
 			continue
 		}
+		last := gm.bindingLast[key]
+		gm.bindingLast[key] = curSt[key]
 		switch curSt[key] {
 		case "binding", "logouting", "updating":
 			continue // held, or under an operation of its own
+		}
+		if last == "logouting" && curSt[key] == "forbidden" {
+			// the node's own logout was approved while the binding was still being voted on: an operation on the node
+			// itself, and a status it never leaves (the logged-out oracle watches that)
+			s.res.Count("probe_node_logged_out_while_binding_pending")
+			delete(gm.bindingBy, key)
+			continue
 		}
 		s.res.Count("probe_node_released_while_binding_pending")
 		if !gm.tainted[key] {
